@@ -472,19 +472,15 @@ impl BloomFilter {
 
             // Handle "dirty" state: 0xFFFFFFFFFFFFFFFF indicates bits need recounting
             const DIRTY_BITS_VALUE: u64 = 0xFFFFFFFFFFFFFFFF;
-            if raw_num_bits_set == DIRTY_BITS_VALUE {
-                num_bits_set = bit_array.iter().map(|w| w.count_ones() as u64).sum();
-            } else {
-                let raw_num_words_set = raw_num_bits_set.div_ceil(64) as usize;
-                if raw_num_words_set > num_words {
-                    return Err(Error::deserial(format!(
-                        "invalid num_bits_set: expected <= {}, got {}",
-                        num_words * 64,
-                        raw_num_bits_set
-                    )));
-                }
-                num_bits_set = raw_num_bits_set;
+            let counted: u64 = bit_array.iter().map(|w| w.count_ones() as u64).sum();
+            // A stored count that disagrees with the bit array would be carried into
+            // bits_used(), is_empty() and invert(), which subtracts it from the capacity.
+            if raw_num_bits_set != DIRTY_BITS_VALUE && raw_num_bits_set != counted {
+                return Err(Error::deserial(format!(
+                    "invalid num_bits_set: the bit array has {counted} bits set, got {raw_num_bits_set}"
+                )));
             }
+            num_bits_set = counted;
         }
 
         Ok(BloomFilter {
